@@ -136,6 +136,12 @@ func (t *tree) commitWithHooks(
 	if err := batch.Commit(root); err != nil {
 		return nil, hash.Hash{}, err
 	}
+	if re, ok := batch.(interface{ RootExisted() bool }); ok && re.RootExisted() {
+		// The root had already been stored by a different batch, so nothing was written and the
+		// stored nodes may live at other database locations than the in-memory nodes refer to.
+		// Forget the in-memory nodes, they are loaded again from the stored root on demand.
+		t.cache.forget(rootHash)
+	}
 
 	t.pendingWriteLog = make(map[string]*pendingEntry)
 	t.pendingRemovedNodes = nil
